@@ -233,6 +233,42 @@ func (sr *syncRig) stop() {
 	chaincfg.RegressionNetParams.HeadersToIgnore = nil
 }
 
+// restart stops the server and the services, reopens the same database file (database.Init) and starts a new server
+func (sr *syncRig) restart() error {
+	for _, n := range sr.nodes {
+		if n.conn != nil {
+			_ = n.conn.Close()
+		}
+	}
+	sr.srv.Stop()
+	done := make(chan struct{})
+	go func() { sr.srv.WaitForShutdown(); close(done) }()
+	select {
+	case <-done:
+	case <-time.After(3 * time.Second):
+	}
+	sr.stack.Close()
+	cfg := sr.stack.Cfg
+	sr.stack = &chainh.Stack{Cfg: cfg}
+	if err := sr.stack.Open(); err != nil {
+		return err
+	}
+	var srv *server
+	var err error
+	for attempt := 0; attempt < 50; attempt++ { // the listening port may need a moment to be free again
+		srv, err = newServer(&sr.params, sr.stack.Svc, sr.stack.Peers, cfg.P2P, &sr.log)
+		if err == nil {
+			break
+		}
+		time.Sleep(10 * time.Millisecond)
+	}
+	if err != nil {
+		return err
+	}
+	sr.srv = srv
+	return sr.srv.Start()
+}
+
 func (sr *syncRig) connect(p, b int) error {
 	d := net.Dialer{LocalAddr: &net.TCPAddr{IP: net.IPv4(127, 0, 0, byte(10+p))}, Timeout: 3 * time.Second}
 	c, err := d.Dial("tcp", "127.0.0.1:"+sr.params.DefaultPort)
@@ -464,6 +500,15 @@ func opSync() error {
 					_ = n.conn.Close()
 				}
 				everClosed[st.P] = true
+			case "restart":
+				// the process stops and starts again on the same database file
+				for p := range sr.nodes {
+					everClosed[p] = true
+				}
+				if err := sr.restart(); err != nil {
+					return fmt.Errorf("HARNESS-ERROR restart: %v", err)
+				}
+				continue
 			}
 			if opErr != nil && !sr.nodes[st.P].isClosed() {
 				miss(k, "sync-drift", fmt.Sprintf("%s(p%d) possible", st.Op, st.P), opErr.Error())
